@@ -9,7 +9,8 @@
 //!
 //! ASSUMPTIONS introduced here (std items without a vstd specification), each marked `ASSUMPTION`:
 //!   * `u32::rotate_left`  (std documentation: bits shifted out on the left re-enter on the right)
-//!   * `u32::to_le_bytes`, `u64::to_le_bytes` via R2 shims whose body is the original call
+//!   * `u32::to_le_bytes` via an R2 shim whose body is the original call (the u64 shim is the shared one of
+//!     verif_extern.rs)
 use vstd::prelude::*;
 use crate::verif_spec::*;
 
@@ -178,7 +179,7 @@ pub open spec fn add64(a: u64, b: u64) -> u64 {
 }
 
 /// b-bit left rotation of a 64-bit word, 0 < b < 64
-pub open spec fn rotl64(x: u64, b: u64) -> u64 {
+pub open spec fn rotl64_spec(x: u64, b: u64) -> u64 {
     (x << b) | (x >> ((64 - b) as u64))
 }
 
@@ -186,23 +187,29 @@ pub open spec fn le64(b: Seq<u8>) -> u64 {
     le_nat(b) as u64
 }
 
-/// SipRound (paper, §2 fig. 2.1), state (v0, v1, v2, v3)
-pub open spec fn sipround(v: Seq<u64>) -> Seq<u64> {
-    let v0 = add64(v[0], v[1]);
-    let v2 = add64(v[2], v[3]);
-    let v1 = rotl64(v[1], 13);
-    let v3 = rotl64(v[3], 16);
+/// SipRound (paper §2, figure 2.1) on the four state words
+pub open spec fn sipround_v(v0: u64, v1: u64, v2: u64, v3: u64) -> (u64, u64, u64, u64) {
+    let v0 = add64(v0, v1);
+    let v2 = add64(v2, v3);
+    let v1 = rotl64_spec(v1, 13);
+    let v3 = rotl64_spec(v3, 16);
     let v1 = v1 ^ v0;
     let v3 = v3 ^ v2;
-    let v0 = rotl64(v0, 32);
+    let v0 = rotl64_spec(v0, 32);
     let v2 = add64(v2, v1);
     let v0 = add64(v0, v3);
-    let v1 = rotl64(v1, 17);
-    let v3 = rotl64(v3, 21);
+    let v1 = rotl64_spec(v1, 17);
+    let v3 = rotl64_spec(v3, 21);
     let v1 = v1 ^ v2;
     let v3 = v3 ^ v0;
-    let v2 = rotl64(v2, 32);
-    seq![v0, v1, v2, v3]
+    let v2 = rotl64_spec(v2, 32);
+    (v0, v1, v2, v3)
+}
+
+/// SipRound on the state (v0, v1, v2, v3)
+pub open spec fn sipround(v: Seq<u64>) -> Seq<u64> {
+    let r = sipround_v(v[0], v[1], v[2], v[3]);
+    seq![r.0, r.1, r.2, r.3]
 }
 
 pub open spec fn siprounds(v: Seq<u64>, n: nat) -> Seq<u64>
@@ -358,15 +365,6 @@ pub fn shim_u32_to_le_bytes(x: u32) -> (r: [u8; 4])
     x.to_le_bytes()
 }
 
-/// ASSUMPTION, R2 shim for `x.to_le_bytes()` (u64). Body = the original call.
-#[verifier::external_body]
-pub fn shim_u64_to_le_bytes(x: u64) -> (r: [u8; 8])
-    ensures
-        le_nat(r@) == x as nat,
-{
-    x.to_le_bytes()
-}
-
 // ================================================================================================
 // Lemmas
 // ================================================================================================
@@ -469,6 +467,164 @@ pub proof fn lemma_ser32_8_pointwise(out: Seq<u8>, w: Seq<u32>)
         assert(le_nat(c) == le4_at(out, k));
     }
     lemma_ser32_8(out, w);
+}
+
+// ================================================================================================
+// SipHash-2-4: proof support
+// ================================================================================================
+/// the 4-word state `s` held in 4 local variables
+pub open spec fn st4_is(s: Seq<u64>, v0: u64, v1: u64, v2: u64, v3: u64) -> bool {
+    s.len() == 4 && s[0] == v0 && s[1] == v1 && s[2] == v2 && s[3] == v3
+}
+
+pub proof fn lemma_siprounds_2(v: Seq<u64>)
+    ensures
+        siprounds(v, 2) == sipround(sipround(v)),
+{
+    reveal_with_fuel(siprounds, 3);
+}
+
+pub proof fn lemma_siprounds_4(v: Seq<u64>)
+    ensures
+        siprounds(v, 4) == sipround(sipround(sipround(sipround(v)))),
+{
+    reveal_with_fuel(siprounds, 5);
+}
+
+/// one more full word absorbed (i = byte offset of the word)
+pub proof fn lemma_sip_absorb_step(v: Seq<u64>, msg: Seq<u8>, i: int)
+    requires
+        0 <= i,
+        i % 8 == 0,
+        i + 8 <= msg.len(),
+    ensures
+        (i + 8) / 8 == i / 8 + 1,
+        sip_absorb(v, msg, ((i + 8) / 8) as nat) == sip_compress(
+            sip_absorb(v, msg, (i / 8) as nat),
+            le64(msg.subrange(i, i + 8)),
+        ),
+{
+    let n = ((i + 8) / 8) as nat;
+    assert(8 * (n - 1) == i);
+    assert(8 * n as int == i + 8);
+}
+
+/// byte k of a 64-bit word
+pub open spec fn u64_byte(b: u64, k: int) -> u8 {
+    ((b >> ((8 * k) as u64)) & 0xff) as u8
+}
+
+pub open spec fn u64_bytes(b: u64) -> Seq<u8> {
+    Seq::new(8, |k: int| u64_byte(b, k))
+}
+
+/// the final block with only the bytes j.. of the remainder filled in
+pub open spec fn sip_partial_block(msg: Seq<u8>, j: int) -> Seq<u8> {
+    let rem = msg.subrange(8 * (msg.len() / 8) as int, msg.len() as int);
+    Seq::new(8, |k: int| if k == 7 { (msg.len() % 256) as u8 } else if j <= k < rem.len() { rem[k] } else { 0u8 })
+}
+
+pub proof fn lemma_sip_partial_0(msg: Seq<u8>)
+    ensures
+        sip_partial_block(msg, 0) == sip_last_block(msg),
+{
+    assert(sip_partial_block(msg, 0) =~= sip_last_block(msg));
+}
+
+/// a 64-bit word is the little-endian value of its bytes
+pub proof fn lemma_u64_bytes_le(b: u64)
+    ensures
+        le_nat(u64_bytes(b)) == b as nat,
+{
+    let s = u64_bytes(b);
+    let b0 = (b >> 0) & 0xff;
+    let b1 = (b >> 8) & 0xff;
+    let b2 = (b >> 16) & 0xff;
+    let b3 = (b >> 24) & 0xff;
+    let b4 = (b >> 32) & 0xff;
+    let b5 = (b >> 40) & 0xff;
+    let b6 = (b >> 48) & 0xff;
+    let b7 = (b >> 56) & 0xff;
+    assert(b0 < 256 && b1 < 256 && b2 < 256 && b3 < 256 && b4 < 256 && b5 < 256 && b6 < 256 && b7 < 256
+        && b == b0 | (b1 << 8) | (b2 << 16) | (b3 << 24) | (b4 << 32) | (b5 << 40) | (b6 << 48) | (b7 << 56)) by (bit_vector)
+        requires
+            b0 == (b >> 0) & 0xff,
+            b1 == (b >> 8) & 0xff,
+            b2 == (b >> 16) & 0xff,
+            b3 == (b >> 24) & 0xff,
+            b4 == (b >> 32) & 0xff,
+            b5 == (b >> 40) & 0xff,
+            b6 == (b >> 48) & 0xff,
+            b7 == (b >> 56) & 0xff,
+    ;
+    assert(s[0] == b0 as u8 && s[1] == b1 as u8 && s[2] == b2 as u8 && s[3] == b3 as u8);
+    assert(s[4] == b4 as u8 && s[5] == b5 as u8 && s[6] == b6 as u8 && s[7] == b7 as u8);
+    lemma_or_shift_8(s[0], s[1], s[2], s[3], s[4], s[5], s[6], s[7]);
+    lemma_le_nat_8(s);
+}
+
+/// `len << 56` has the byte `len mod 256` on top of seven null bytes
+pub proof fn lemma_sip_len_word(msg: Seq<u8>, len: usize)
+    requires
+        len == msg.len(),
+    ensures
+        u64_bytes(((len as u64) << 56)) == sip_partial_block(msg, (msg.len() % 8) as int),
+{
+    let l = len as u64;
+    let w = l << 56;
+    assert forall|k: int| 0 <= k < 8 implies u64_byte(w, k) == sip_partial_block(msg, (msg.len() % 8) as int)[k] by {
+        let sh = (8 * k) as u64;
+        let y = (w >> sh) & 0xff;
+        assert(y == (if sh == 56 { l % 256 } else { 0 }) && y < 256) by (bit_vector)
+            requires
+                w == l << 56,
+                y == (w >> sh) & 0xff,
+                sh <= 56,
+                sh % 8 == 0,
+        ;
+    }
+    assert(u64_bytes(w) =~= sip_partial_block(msg, (msg.len() % 8) as int));
+}
+
+/// OR-ing byte i of the remainder into the word
+pub proof fn lemma_sip_or_byte(msg: Seq<u8>, b: u64, i: usize, x: u8)
+    requires
+        i < msg.len() % 8,
+        x == msg[8 * (msg.len() / 8) + i],
+        u64_bytes(b) == sip_partial_block(msg, i + 1),
+    ensures
+        u64_bytes(b | ((x as u64) << ((i * 8) as u64))) == sip_partial_block(msg, i as int),
+{
+    let sh = (i * 8) as u64;
+    let xx = x as u64;
+    let nb = b | (xx << sh);
+    let yi = (b >> sh) & 0xff;
+    assert(u64_bytes(b)[i as int] == 0);
+    assert(yi < 256) by (bit_vector)
+        requires
+            yi == (b >> sh) & 0xff,
+    ;
+    assert(yi == 0);
+    assert forall|k: int| 0 <= k < 8 implies u64_byte(nb, k) == sip_partial_block(msg, i as int)[k] by {
+        let kk = (8 * k) as u64;
+        let y = (nb >> kk) & 0xff;
+        let o = (b >> kk) & 0xff;
+        assert(u64_bytes(b)[k] == o as u8);
+        assert(y == (if kk == sh { xx } else { o }) && y < 256 && o < 256) by (bit_vector)
+            requires
+                nb == b | (xx << sh),
+                y == (nb >> kk) & 0xff,
+                o == (b >> kk) & 0xff,
+                yi == (b >> sh) & 0xff,
+                yi == 0,
+                xx < 256,
+                sh < 64,
+                kk < 64,
+                sh % 8 == 0,
+                kk % 8 == 0,
+        ;
+    }
+    assert(u64_bytes(nb) =~= sip_partial_block(msg, i as int));
 }
 
 } // verus!
